@@ -280,6 +280,35 @@ pub fn judge_painted(text: &str, st: &StatsView, c: &Case) -> Result<(), (String
     Ok(())
 }
 
+/// Injects the case's samples into a real `BenchContext`, computes the
+/// statistics and paints the leaf (last child, name "bench").
+pub fn inject_and_paint(c: &Case) -> Result<(StatsView, String), String> {
+    let n = c.durations.len();
+    if c.allocs.len() != n || c.counters.iter().any(|k| matches!(k, CounterSpec::PerInput(v) if v.len() != n)) {
+        return Err("malformed case".into());
+    }
+    let ctx = BenchCtx::new(VAction::Bench, Some(1_000_000_000));
+    let options = BenchOptions::default();
+    let mut run = ctx.start(&options, 1);
+    let allocs: Vec<(u32, TallyView)> = c
+        .allocs
+        .iter()
+        .enumerate()
+        .filter_map(|(i, a)| a.map(|t| (i as u32, TallyView { tallies: [t[0], t[1], t[2], t[3]], current_count: 0, max_count: t[4].0 as i64, current_size: 0, max_size: t[4].1 as i64 })))
+        .collect();
+    let counts: [Option<(bool, Vec<u64>)>; 4] = std::array::from_fn(|k| match &c.counters[k] {
+        CounterSpec::None => None,
+        CounterSpec::Const(v) => Some((false, vec![*v])),
+        CounterSpec::PerInput(v) => Some((true, v.clone())),
+    });
+    run.inject(c.sample_size, &c.durations, &allocs, &counts);
+    let (painted, text) = capture::stdout(|| run.paint_leaf("bench", true, 12, c.binary));
+    match painted {
+        Ok(stats) => Ok((stats, text)),
+        Err(e) => Err(format!("panic: {e}")),
+    }
+}
+
 pub fn run_injected(c: &Case) -> Verdict {
     let n = c.durations.len();
     if c.allocs.len() != n {
